@@ -68,3 +68,49 @@ class Uninterp:
     def model(self):
         """externals entry: callable(eng, args, kwargs)."""
         return lambda eng, args, kwargs: self.apply(eng, args, kwargs)
+
+
+class SpecFn:
+    """Opaque spec function over integers: an application is an uninterpreted-function term plus its definitional
+    equation (the body, symbolically evaluated once per distinct argument tuple). Proofs that only need congruence
+    (code composes the same reference steps as the spec) never look inside; range facts still follow from the body.
+    Natively it is just the Python function."""
+
+    def __init__(self, fn):
+        self.fn = fn
+        self.__name__ = fn.__name__
+        self.__doc__ = fn.__doc__
+        self.uf = None
+
+    def __call__(self, *args, **kw):
+        return self.fn(*args, **kw)
+
+    def apply(self, eng, args, kwargs):
+        if kwargs:
+            return eng.call_function(self.fn, list(args), kwargs, force_inline=True)
+        ivs = []
+        for a in args:
+            iv = eng.as_int(eng.force(a))
+            if iv is None:
+                return eng.call_function(self.fn, list(args), {}, force_inline=True)
+            ivs.append(iv)
+        if all(z3.is_int_value(z3.simplify(iv.t)) for iv in ivs):
+            return eng.call_function(self.fn, list(args), {}, force_inline=True)
+        if self.uf is None or self.uf.arity() != len(ivs):
+            self.uf = z3.Function("spec$" + self.__name__, *([z3.IntSort()] * (len(ivs) + 1)))
+        ts = [z3.simplify(iv.t) for iv in ivs]
+        app = self.uf(*ts)
+        key = ("specfn", self.__name__, tuple(t.get_id() for t in ts))
+        hit = eng.memo.get(key)
+        if hit is None or not all(x.eq(y) for x, y in zip(hit[0], ts)):
+            eng.memo[key] = (ts, app)
+            body = eng.call_function(self.fn, [VInt(t) for t in ts], {}, force_inline=True)
+            bi = eng.as_int(eng.force(body))
+            if bi is None:
+                raise Unsupported("opaque spec function %s must return an int" % self.__name__)
+            eng.assume(app == bi.t)
+        return VInt(app)
+
+
+def spec_fn(fn):
+    return SpecFn(fn)
